@@ -149,6 +149,62 @@ func C08(r *ev.Report) {
 		r.Merge(c)
 	})
 
+	// complete length product on the expander seam: every (message length, DST length) pair up to the bound, so
+	// that an off-by-one at ANY internal buffer or block threshold is hit, not only at the thresholds we thought of
+	maxLen := 520
+	if ev.Thorough() {
+		maxLen = 1100
+	}
+
+	big := fill(maxLen, 2)
+	r.Bound("expander_length_product", fmt.Sprintf("msg 0..%d x DST 1..%d x output {48,96}", maxLen, maxLen))
+
+	r.ParFor(maxLen+1, func(_, ml int) {
+		for dl := 1; dl <= maxLen; dl++ {
+			for _, n := range []int{48, 96} {
+				if key, detail := c08Expander(big[:ml], big[maxLen-dl:], n); key != "" {
+					r.Violation(key, detail, Case{"op": "expand", "msg": hb(big[:ml]), "dst": hb(big[maxLen-dl:]), "len": fmt.Sprint(n)})
+				}
+			}
+		}
+
+		r.Transitions.Add(int64(2 * maxLen))
+		r.Evals.Add(int64(2 * maxLen))
+		r.States.Add(int64(maxLen))
+		r.Distinct.Add(int64(maxLen))
+	})
+
+	// the full functions along lines of that product
+	var lines []hashPair
+
+	for ml := 0; ml <= maxLen; ml++ {
+		for _, dl := range []int{1, 16, 49, 64, 255, 256, 300} {
+			lines = append(lines, hashPair{big[:ml], big[maxLen-dl:]})
+		}
+	}
+
+	for dl := 1; dl <= maxLen; dl++ {
+		for _, ml := range []int{0, 1, 64} {
+			lines = append(lines, hashPair{big[:ml], big[maxLen-dl:]})
+		}
+	}
+
+	r.Bound("length_lines", len(lines))
+
+	r.ParFor(len(lines), func(_, i int) {
+		for fi := range hashFns {
+			r.Transitions.Add(2)
+			r.Evals.Add(1)
+
+			if key, detail := c08Case(fi, lines[i].msg, lines[i].dst); key != "" {
+				r.Violation(key, detail, Case{"op": "hash", "fn": fmt.Sprint(fi), "msg": hb(lines[i].msg), "dst": hb(lines[i].dst), "nilmsg": "false"})
+			}
+		}
+
+		r.States.Add(1)
+		r.Distinct.Add(1)
+	})
+
 	msgs := append(shortMsgs(false)[:20], longMsgs()[:6]...)
 	for _, m := range msgs {
 		for fi := range hashFns {
